@@ -252,7 +252,10 @@ def cli_scenario(arg):
         # scan of the tree containing the file
         from codelimit.commands.scan import scan_command
 
-        for rootform in (root, Path(os.path.relpath(root, top / "work"))):
+        for rootform in (root, Path(os.path.relpath(root, top / "work")), "alone"):
+            if rootform == "alone":  # the same once more when the file is the only one of the tree (nothing else measured)
+                (root / "main.py").unlink()
+                rootform = root
             os.chdir(top / "work")
             Configuration.exclude = []
             Configuration.repository = None
